@@ -10,16 +10,31 @@ Values of the generic `T` are `Int` (`T::default()` = 0, `+`/`-`/`*` exact): ove
 is outside the property and outside this model. The grid is a function of the `PointIndex` handed to
 `ArrayGrid::get`; the constructors `PointIndex::new1d…new4d` are translated from point.rs.
 
-Recognised statement grammar (anything else raises Unsupported => the proof obligations break):
-    let <id> = PointIndex::new<k>d(<nat literal>, …);
-    let <id> = array_grid.get(<point id> | PointIndex::new<k>d(…));
+Recognised grammar (anything else raises Unsupported => the proof obligations break). A body is a control-flow tree:
+    let <id> = PointIndex::new<k>d(<n>, …);                  -- <n>: literal or `const NAME: usize = <literal>;` of the file
+    let <id> = <grid>.get(<point id> | PointIndex::new<k>d(…));
     let <id> = <int expr>;                                   -- + - * ( ) literals, T::default(), value ids, self.<field>
-    if <bool expr> { return Err(<expr>); }                   -- == != < <= > >= && || ! over int exprs
+    let <id> [: [T; n]] = [<int expr | <grid>.get(..)>, …];  -- fixed-size array: one binding per element, in order
+    let [a, b, …] = <array id>;   let (a, b, …) = (<e>, …) | <helper>(<grid>, …);
+    if <bool expr> { … } [else if <bool expr> { … }]* [else { … }]      -- as a statement or as the tail expression
+    for <id> in [<n>, …] { … }   for (<i>, <x>) in <array id>.iter().enumerate() { … }   for <x> in <array id>[.iter()] { … }
     self.<field> = <int expr>;
-    Ok(())                                                   -- tail expression, must be last
+    return Err(<payload>);  return Ok(());  Err(<payload>)  Ok(())    -- the payload may not mention self or the grid
+Normalisations performed (each is an identity of the control-flow tree, so the generated definition is the same
+for every spelling):
+  * `if c { return r; } rest`  ≡  `if c { r } else { rest }`; an `else if` chain is the nested tree; hence a sequence of
+    early returns, an else-if chain of returns and a tail `if … { Err(..) } else { …; Ok(()) }` all give
+    `if c then (self, false) else …`. Statements after a branch that may fall through are placed behind that branch.
+  * a `for` over an array literal of constants / over a fixed-size local array is unrolled (the length is in the source).
+  * a private helper function (free function or `&self` method of the file) called as `let pat = helper(args);` is replaced
+    by its straight-line body with the parameters bound to the arguments; its locals keep their names unless they
+    are already in use in the definition (then they get a fresh one: alpha-renaming). Helpers are pure: they may read the
+    grid and `self` but contain no assignment, no `return` and no control flow.
+  * a name bound twice (Rust shadowing) gets a fresh Lean name; block scopes are respected.
 """
 import re
 from rsexpr import Unsupported, strip_comments, parse_expr, split_statements, find_fn
+from rsblock import parse_body, fn_items, const_items, split_top
 
 ROOT = 'deep_causality/src/types/context_types/node_types_adjustable'
 POINT_RS = 'dcl_data_structures/src/grid_type/point.rs'
@@ -140,9 +155,38 @@ def parse_struct(repo, d, rust_ty):
 # expressions
 # ----------------------------------------------------------------------------------------------
 class Env:
-    def __init__(self, tfields, ctors):
-        self.tfields, self.ctors = tfields, ctors
-        self.kind = {}           # local name -> 'pt' | 'val'
+    """Rust name -> what it stands for: ('pt', lean) | ('val', lean) | ('arr', [lean, …]) | ('num', n) | ('grid',).
+    `used` (shared by all scopes of one generated definition) makes every Lean binding name unique, so flattening
+    block scopes and inlined helpers can never capture a name."""
+
+    def __init__(self, tfields, ctors, consts, helpers, used=None, vars_=None):
+        self.tfields, self.ctors, self.consts, self.helpers = tfields, ctors, consts, helpers
+        self.used = used if used is not None else set(RESERVED)
+        self.vars = dict(vars_ or {})
+
+    def child(self):
+        return Env(self.tfields, self.ctors, self.consts, self.helpers, self.used, self.vars)
+
+    def fresh_scope(self):
+        return Env(self.tfields, self.ctors, self.consts, self.helpers, self.used, {})
+
+    def bind(self, name, kind):
+        if not re.fullmatch(r'[A-Za-z_][A-Za-z_0-9]*', name):
+            raise Unsupported('identifier ' + name)
+        lean, k = name, 1
+        while lean in self.used:
+            lean = f'{name}_{k}'
+            k += 1
+        self.used.add(lean)
+        lean = f'«{lean}»' if lean in LEAN_KEYWORDS else lean
+        self.vars[name] = (kind, lean)
+        return lean
+
+    def get(self, name, kind=None):
+        v = self.vars.get(name)
+        if v is None or (kind is not None and v[0] != kind):
+            return None
+        return v
 
 
 CMP = {'==': '=', '!=': '≠', '<': '<', '<=': '≤', '>': '>', '>=': '≥'}
@@ -150,6 +194,21 @@ CMP = {'==': '=', '!=': '≠', '<': '<', '<=': '≤', '>': '>', '>=': '≥'}
 
 def is_default(a):
     return a[0] == 'call' and a[1] == ('path', ['T', 'default']) and a[2] == []
+
+
+def const_num(a, env):
+    """a compile-time index: literal, `const NAME: usize = <literal>` or an unrolled loop variable"""
+    if a[0] == 'num':
+        return a[1]
+    if a[0] == 'paren':
+        return const_num(a[1], env)
+    if a[0] == 'path' and len(a[1]) == 1:
+        v = env.get(a[1][0], 'num')
+        if v:
+            return v[1]
+        if a[1][0] not in env.vars and a[1][0] in env.consts:
+            return env.consts[a[1][0]]
+    raise Unsupported('not a compile-time index: ' + repr(a)[:60])
 
 
 def int_expr(a, env):
@@ -160,15 +219,27 @@ def int_expr(a, env):
         return int_expr(a[1], env)
     if k == 'neg':
         return f'(-{int_expr(a[1], env)})'
+    if k == 'deref':                   # `*x` for an element reference handed out by `.iter()`
+        if a[1][0] == 'path' and len(a[1][1]) == 1 and env.get(a[1][1][0], 'val'):
+            return int_expr(a[1], env)
+        raise Unsupported('dereference of ' + repr(a[1])[:60])
     if is_default(a):
         return '0'
     if k == 'bin' and a[1] in ('+', '-', '*'):
         return f'({int_expr(a[2], env)} {a[1]} {int_expr(a[3], env)})'
     if k == 'path' and len(a[1]) == 1:
-        n = a[1][0]
-        if env.kind.get(n) != 'val':
-            raise Unsupported(f'`{n}` is not a value binding')
-        return lean_id(n)
+        v = env.get(a[1][0], 'val')
+        if not v:
+            raise Unsupported(f'`{a[1][0]}` is not a value binding')
+        return v[1]
+    if k == 'index' and a[1][0] == 'path' and len(a[1][1]) == 1:
+        arr = env.get(a[1][1][0], 'arr')
+        if not arr:
+            raise Unsupported(f'`{a[1][1][0]}` is not an array binding')
+        i = const_num(a[2], env)
+        if not 0 <= i < len(arr[1]):
+            raise Unsupported(f'index {i} out of bounds of `{a[1][1][0]}`')
+        return arr[1][i]
     if k == 'field' and a[1] == ('path', ['self']):
         if a[2] not in env.tfields:
             raise Unsupported('self.' + a[2] + ' is not a field of type T')
@@ -189,75 +260,323 @@ def bool_expr(a, env):
     raise Unsupported('condition ' + repr(a)[:80])
 
 
+def is_point_ctor(a):
+    return a[0] == 'call' and a[1][0] == 'path' and len(a[1][1]) == 2 and a[1][1][0] == 'PointIndex'
+
+
 def point_expr(a, env):
     if a[0] == 'path' and len(a[1]) == 1:
-        if env.kind.get(a[1][0]) != 'pt':
+        v = env.get(a[1][0], 'pt')
+        if not v:
             raise Unsupported(f'`{a[1][0]}` is not a point binding')
-        return lean_id(a[1][0])
-    if a[0] == 'call' and a[1][0] == 'path' and len(a[1][1]) == 2 and a[1][1][0] == 'PointIndex':
+        return v[1]
+    if is_point_ctor(a):
         ctor = a[1][1][1]
         if ctor not in env.ctors:
             raise Unsupported('PointIndex::' + ctor)
         if len(a[2]) != len(env.ctors[ctor][0]):
             raise Unsupported(f'PointIndex::{ctor}: wrong number of arguments')
-        args = []
-        for x in a[2]:
-            if x[0] != 'num':
-                raise Unsupported(f'PointIndex::{ctor}: argument is not a literal')
-            args.append(str(x[1]))
-        return f'(Pt.{ctor} {" ".join(args)})'
+        return f'(Pt.{ctor} {" ".join(str(const_num(x, env)) for x in a[2])})'
     raise Unsupported('point expression ' + repr(a)[:80])
 
 
+def grid_get(a, env):
+    """`<grid>.get(<point>)` -> Lean text, else None"""
+    if a[0] == 'mcall' and a[1][0] == 'path' and len(a[1][1]) == 1 and env.get(a[1][1][0], 'grid'):
+        if a[2] != 'get' or len(a[3]) != 1:
+            raise Unsupported(f'{a[1][1][0]}.{a[2]}')
+        return f'grid {point_expr(a[3][0], env)}'
+    return None
+
+
+def mentions(a, names):
+    """does the expression mention one of the identifiers (as a path head), or contain a block?"""
+    if isinstance(a, tuple):
+        if a and a[0] == 'path':
+            return a[1][0] in names
+        if a and a[0] in ('block', 'if', 'match', 'unsafe', 'closure'):
+            return True
+        return any(mentions(x, names) for x in a[1:])
+    if isinstance(a, list):
+        return any(mentions(x, names) for x in a)
+    return False
+
+
 # ----------------------------------------------------------------------------------------------
-# statements
+# statements: a body is a control-flow tree; `cont` produces what follows the current block (None: nothing may)
 # ----------------------------------------------------------------------------------------------
-def translate_body(where, body, env):
-    lines, done = [], False
-    for st in split_statements(body):
-        if done:
-            raise Unsupported(f'{where}: statement after the tail expression: ' + st)
-        m = re.fullmatch(r'let (\w+) = (.+);', st)
-        if m:
-            name, rhs = m.group(1), parse_expr(m.group(2))
-            if rhs[0] == 'call' and rhs[1][0] == 'path' and rhs[1][1][:1] == ['PointIndex']:
-                lines.append(f'  let {lean_id(name)} : Pt := {point_expr(rhs, env)}')
-                env.kind[name] = 'pt'
-            elif rhs[0] == 'mcall' and rhs[1] == ('path', ['array_grid']):
-                if rhs[2] != 'get' or len(rhs[3]) != 1:
-                    raise Unsupported(f'{where}: array_grid.{rhs[2]}')
-                lines.append(f'  let {lean_id(name)} : Int := grid {point_expr(rhs[3][0], env)}')
-                env.kind[name] = 'val'
+class Body:
+    def __init__(self, where, grid_names):
+        self.where, self.grid_names = where, grid_names
+        self.depth = 0
+
+    def fail(self, msg):
+        raise Unsupported(f'{self.where}: {msg}')
+
+    def result(self, e, env):
+        """`Ok(())` / `Err(payload)` -> Lean line, else None"""
+        if e[0] == 'call' and e[1] == ('path', ['Ok']) and e[2] == [('unit',)]:
+            return '  (self, true)'
+        if e[0] == 'call' and e[1] == ('path', ['Err']) and len(e[2]) == 1:
+            if mentions(e[2][0], {'self'} | self.grid_names):
+                self.fail('error payload touches state: ' + repr(e[2][0])[:80])
+            return '  (self, false)'
+        return None
+
+    def bind_value(self, env, name, rhs, lines):
+        """let name = rhs  for a point / a grid read / an integer / an array"""
+        if is_point_ctor(rhs):
+            text = point_expr(rhs, env)
+            lines.append(f'  let {env.bind(name, "pt")} : Pt := {text}')
+            return
+        g = grid_get(rhs, env)
+        if g is not None:
+            lines.append(f'  let {env.bind(name, "val")} : Int := {g}')
+            return
+        if rhs[0] == 'array':
+            texts = []
+            for i, x in enumerate(rhs[1]):
+                t = grid_get(x, env) or int_expr(x, env)
+                ln = env.bind(f'{name}_{i}', 'val')
+                lines.append(f'  let {ln} : Int := {t}')
+                texts.append(ln)
+            env.vars[name] = ('arr', texts)
+            return
+        if rhs[0] == 'path' and len(rhs[1]) == 1 and env.get(rhs[1][0], 'arr'):
+            env.vars[name] = env.get(rhs[1][0], 'arr')          # arrays of `T: Copy` are copied: same values
+            return
+        text = int_expr(rhs, env)
+        lines.append(f'  let {env.bind(name, "val")} : Int := {text}')
+
+    def helper_call(self, rhs, env):
+        if rhs[0] == 'call' and rhs[1][0] == 'path':
+            p = rhs[1][1]
+            if len(p) == 2 and p[0] == 'Self':
+                p = p[1:]
+            if len(p) == 1 and p[0] in env.helpers and not env.helpers[p[0]]['recv']:
+                return p[0], rhs[2]
+        if rhs[0] == 'mcall' and rhs[1] == ('path', ['self']) and rhs[2] in env.helpers and env.helpers[rhs[2]]['recv']:
+            return rhs[2], rhs[3]
+        return None
+
+    def inline(self, env, hname, args, lines):
+        """the helper's straight-line body, in a scope of its own; returns the returned components as
+        (kind, lean) pairs"""
+        if self.depth >= 4:
+            self.fail(f'helper {hname}: inlining too deep (recursion?)')
+        h = env.helpers[hname]
+        if len(args) != len(h['params']):
+            self.fail(f'helper {hname}: arity')
+        he = env.fresh_scope()
+        for (pname, pkind), arg in zip(h['params'], args):
+            if pkind == 'grid':
+                if not (arg[0] == 'path' and len(arg[1]) == 1 and env.get(arg[1][0], 'grid')):
+                    self.fail(f'helper {hname}: the grid argument is not the grid')
+                he.vars[pname] = ('grid',)
+            elif pkind == 'val':
+                text = int_expr(arg, env)
+                lines.append(f'  let {he.bind(pname, "val")} : Int := {text}')
             else:
-                lines.append(f'  let {lean_id(name)} : Int := {int_expr(rhs, env)}')
-                env.kind[name] = 'val'
-            continue
-        m = re.fullmatch(r'if (.+?) \{ return Err\((.+)\) ?; \}', st)
-        if m:
-            parse_expr(m.group(2))          # the payload must at least be an expression (no statements hidden in it)
-            if re.search(r'\bself\b|\barray_grid\b|=', m.group(2)):
-                raise Unsupported(f'{where}: error payload touches state: ' + m.group(2))
-            lines.append(f'  if {bool_expr(parse_expr(m.group(1)), env)} then (self, false) else')
-            continue
-        m = re.fullmatch(r'self\.(\w+) = (.+);', st)
-        if m:
-            f = m.group(1)
-            if f not in env.tfields:
-                raise Unsupported(f'{where}: assignment to self.{f}, which is not a field of type T')
-            lines.append(f'  let self := {{ self with {lean_id(f)} := {int_expr(parse_expr(m.group(2)), env)} }}')
-            continue
-        if st == 'Ok(())':
-            lines.append('  (self, true)')
-            done = True
-            continue
-        raise Unsupported(f'{where}: statement outside the recognised grammar: ' + st)
-    if not done:
-        raise Unsupported(f'{where}: body does not end in Ok(())')
-    return lines
+                text = point_expr(arg, env)
+                lines.append(f'  let {he.bind(pname, "pt")} : Pt := {text}')
+        blk = parse_body(h['body'])
+        self.depth += 1
+        for st in blk[1]:
+            if st[0] != 'let':
+                self.fail(f'helper {hname}: only `let` statements are inlined, found ' + repr(st)[:80])
+            self.let(he, st, lines, in_helper=hname)
+        self.depth -= 1
+        tail = blk[2]
+        if tail is None:
+            self.fail(f'helper {hname} returns nothing')
+        comps = tail[1] if tail[0] == 'tuple' else [tail[1] if tail[0] == 'paren' else tail]
+        out = []
+        for c in comps:
+            if c[0] == 'path' and len(c[1]) == 1 and he.get(c[1][0]) and he.get(c[1][0])[0] in ('val', 'pt', 'arr'):
+                out.append(he.get(c[1][0]))
+            else:
+                ln = he.bind(f'{hname}_ret', 'val')
+                lines.append(f'  let {ln} : Int := {grid_get(c, he) or int_expr(c, he)}')
+                out.append(('val', ln))
+        return out
+
+    def let(self, env, st, lines, in_helper=None):
+        pat, rhs = st[1], st[3]
+        hc = self.helper_call(rhs, env)
+        if hc:
+            vals = self.inline(env, hc[0], hc[1], lines)
+            pats = pat[1] if pat[0] == 'tuple' else [pat]
+            if len(pats) != len(vals):
+                self.fail(f'helper {hc[0]}: pattern does not match the returned tuple')
+            for p, v in zip(pats, vals):
+                if p[0] == 'wild':
+                    continue
+                if p[0] != 'id':
+                    self.fail('nested pattern')
+                env.vars[p[1]] = v                     # the caller's name for the helper's binding (alias)
+            return
+        if pat[0] == 'id':
+            self.bind_value(env, pat[1], rhs, lines)
+            return
+        if pat[0] == 'tuple' and rhs[0] == 'tuple' and len(pat[1]) == len(rhs[1]):
+            new = []
+            for p, x in zip(pat[1], rhs[1]):           # all components are evaluated before any name is bound
+                if p[0] not in ('id', 'wild'):
+                    self.fail('nested pattern')
+                sub = env.child()
+                tmp = []
+                self.bind_value(sub, p[1] if p[0] == 'id' else '_', x, tmp)
+                new.append((p, sub, tmp))
+            for p, sub, tmp in new:
+                lines.extend(tmp)
+                if p[0] == 'id':
+                    env.vars[p[1]] = sub.vars[p[1]]
+            return
+        if pat[0] == 'slice' and rhs[0] == 'path' and len(rhs[1]) == 1 and env.get(rhs[1][0], 'arr'):
+            arr = env.get(rhs[1][0], 'arr')[1]
+            if len(arr) != len(pat[1]):
+                self.fail('array pattern of the wrong length')
+            for p, ln in zip(pat[1], arr):
+                if p[0] == 'id':
+                    env.vars[p[1]] = ('val', ln)
+                elif p[0] != 'wild':
+                    self.fail('nested pattern')
+            return
+        self.fail('let pattern / initialiser outside the recognised grammar: ' + repr(st)[:100])
+
+    def iterations(self, env, pat, it):
+        """the bindings of each iteration of `for pat in it`, as functions that extend an Env"""
+        def arr_of(a):
+            if a[0] == 'path' and len(a[1]) == 1 and env.get(a[1][0], 'arr'):
+                return env.get(a[1][0], 'arr')[1]
+            return None
+        if it[0] == 'array' and pat[0] == 'id':
+            nums = [const_num(x, env) for x in it[1]]
+            return [{pat[1]: ('num', n)} for n in nums]
+        base = it
+        enum = False
+        if base[0] == 'mcall' and base[2] == 'enumerate' and not base[3]:
+            enum, base = True, base[1]
+        if base[0] == 'mcall' and base[2] == 'iter' and not base[3]:
+            base = base[1]
+        elif enum:
+            self.fail('enumerate() of something other than <array>.iter()')
+        arr = arr_of(base)
+        if arr is None:
+            self.fail('for loop over something other than a fixed-size local array or an array literal of constants')
+        if enum:
+            if pat[0] != 'tuple' or len(pat[1]) != 2 or any(p[0] not in ('id', 'wild') for p in pat[1]):
+                self.fail('for pattern')
+            out = []
+            for i, ln in enumerate(arr):
+                d = {}
+                if pat[1][0][0] == 'id':
+                    d[pat[1][0][1]] = ('num', i)
+                if pat[1][1][0] == 'id':
+                    d[pat[1][1][1]] = ('val', ln)
+                out.append(d)
+            return out
+        if pat[0] != 'id':
+            self.fail('for pattern')
+        return [{pat[1]: ('val', ln)} for ln in arr]
+
+    def seq(self, stmts, tail, env, cont):
+        """Lean lines of `stmts; tail` followed by `cont()`; every path ends in `(self, b)`"""
+        lines = []
+        for i, st in enumerate(stmts):
+            k = st[0]
+
+            def rest(i=i):
+                return self.seq(stmts[i + 1:], tail, env.child(), cont)     # a copy: `rest` may be placed behind several branches
+            if k == 'let':
+                self.let(env, st, lines)
+                continue
+            if k == 'assign':
+                lhs = st[1]
+                if not (lhs[0] == 'field' and lhs[1] == ('path', ['self'])):
+                    self.fail('assignment to something other than self.<field>')
+                if lhs[2] not in env.tfields:
+                    self.fail(f'assignment to self.{lhs[2]}, which is not a field of type T')
+                lines.append(f'  let self := {{ self with {lean_id(lhs[2])} := {int_expr(st[2], env)} }}')
+                continue
+            if k == 'return':
+                r = self.result(st[1], env) if st[1] is not None else None
+                if r is None:
+                    self.fail('return of something other than Ok(()) / Err(..)')
+                if i + 1 < len(stmts) or tail is not None:
+                    self.fail('unreachable statements after return')
+                return lines + [r]
+            if k == 'expr' and st[1][0] == 'if':
+                return lines + self.if_tree(st[1], env, rest)
+            if k == 'for':
+                its = self.iterations(env, st[1], st[2])
+                body = st[3]
+                bstmts = list(body[1])
+                if body[2] is not None:
+                    if body[2][0] != 'if':
+                        self.fail('for body with a tail expression')
+                    bstmts.append(('expr', body[2]))       # an `if` without value in tail position is a statement
+
+                def run(j):
+                    if j == len(its):
+                        return rest()
+                    sub = env.child()
+                    sub.vars.update(its[j])
+                    return self.seq(bstmts, None, sub, lambda: run(j + 1))
+                return lines + run(0)
+            self.fail('statement outside the recognised grammar: ' + repr(st)[:120])
+        if tail is not None:
+            if tail[0] == 'if':
+                return lines + self.if_tree(tail, env, None)
+            r = self.result(tail, env)
+            if r is None:
+                self.fail('tail expression is neither Ok(()) nor Err(..): ' + repr(tail)[:80])
+            return lines + [r]
+        if cont is None:
+            self.fail('control reaches the end of a block that must produce the result')
+        return lines + cont()
+
+    def if_tree(self, e, env, cont):
+        cond = bool_expr(e[1], env)
+        then = self.seq(e[2][1], e[2][2], env.child(), cont)
+        if e[3] is None:
+            if cont is None:
+                self.fail('`if` without `else` where a result is required')
+            els = cont()
+        elif e[3][0] == 'if':
+            els = self.if_tree(e[3], env, cont)
+        else:
+            els = self.seq(e[3][1], e[3][2], env.child(), cont)
+        if len(then) == 1:
+            return [f'  if {cond} then {then[0].strip()} else'] + els
+        return [f'  if {cond} then ('] + ['  ' + l for l in then[:-1]] + ['  ' + then[-1] + ') else'] + els
 
 
-SIG = (r'fn (update|adjust)<const W: usize, const H: usize, const D: usize, const C: usize>\( &mut self, '
-       r'array_grid: &ArrayGrid<T, W, H, D, C>, \) -> Result<\(\), (\w+)>')
+def parse_params(where, params):
+    """`&mut self, g: &ArrayGrid<T, W, H, D, C>, v: T, p: PointIndex` -> (receiver | None, [(name, kind)])"""
+    ps = split_top(params)
+    recv = None
+    if ps and re.fullmatch(r'&(mut )?self', ps[0]):
+        recv, ps = ps[0], ps[1:]
+    out = []
+    for p in ps:
+        m = re.fullmatch(r'(\w+)\s*:\s*(.+)', p, flags=re.S)
+        if not m:
+            raise Unsupported(f'{where}: parameter {p}')
+        ty = ''.join(m.group(2).split())
+        if re.fullmatch(r'&ArrayGrid<T,W,H,D,C>', ty):
+            kind = 'grid'
+        elif ty == 'T':
+            kind = 'val'
+        elif ty == 'PointIndex':
+            kind = 'pt'
+        else:
+            raise Unsupported(f'{where}: parameter type {m.group(2)}')
+        out.append((m.group(1), kind))
+    return recv, out
+
+
+GENERICS = '<const W: usize, const H: usize, const D: usize, const C: usize>'
 
 
 def gen_adjustable(repo):
@@ -274,19 +593,41 @@ def gen_adjustable(repo):
         impls = re.findall(r'impl\s*<T>\s*Adjustable<T>\s*for\s*(\w+)<T>', src)
         if impls != [rust_ty]:
             raise Unsupported(f'{d}/adjustable.rs: expected exactly `impl<T> Adjustable<T> for {rust_ty}<T>`, found {impls}')
-        fns = re.findall(r'\bfn\s+(\w+)', src)
-        if sorted(fns) != ['adjust', 'update']:
-            raise Unsupported(f'{d}/adjustable.rs: functions {fns} (expected update and adjust)')
+        items = fn_items(src)
+        names = [it['name'] for it in items]
+        if len(set(names)) != len(names) or not {'update', 'adjust'} <= set(names):
+            raise Unsupported(f'{d}/adjustable.rs: functions {names} (expected update and adjust, plus private helpers)')
+        consts = {}
+        for cname, cty, ctext in const_items(src):
+            if cty == 'usize' and re.fullmatch(r'\d+', ctext):
+                consts[cname] = int(ctext)              # other constants (message tables …) may only occur in error payloads
+        helpers = {}
+        for it in items:
+            if it['name'] in ('update', 'adjust'):
+                continue
+            if it['vis']:
+                raise Unsupported(f'{d}/adjustable.rs: unexpected public function {it["name"]}')
+            try:
+                recv, hp = parse_params(f'{d}/adjustable.rs {it["name"]}', it['params'])
+            except Unsupported:
+                continue                                   # not a helper this translator can inline; calling it is rejected
+            if recv == '&mut self':
+                continue
+            helpers[it['name']] = {'recv': recv, 'params': hp, 'body': it['body']}
         out += [f'/-- `{rust_ty}<T>`: the fields of type `T` (not modelled, never assigned: {", ".join(other) or "-"}) -/',
                 f'structure {name} where'] + [f'  {lean_id(f)} : Int' for f in tfields] + ['deriving DecidableEq, Repr', '']
         for fname in ('update', 'adjust'):
-            sig, body = find_fn(src, fname)
-            ms = re.fullmatch(SIG, sig)
-            if not ms or ms.group(2) != ERRS[fname]:
-                raise Unsupported(f'{d}/adjustable.rs {fname}: signature not recognised: ' + sig)
-            env = Env(tfields, ctors)
+            it = next(x for x in items if x['name'] == fname)
+            where = f'{d}/adjustable.rs {fname}'
+            recv, ps = parse_params(where, it['params'])
+            if (not it['sig'].startswith(f'fn {fname}{GENERICS}(') or recv != '&mut self' or [k for _, k in ps] != ['grid']
+                    or it['ret'] != f'Result<(), {ERRS[fname]}>'):
+                raise Unsupported(f'{where}: signature not recognised: ' + it['sig'])
+            env = Env(tfields, ctors, consts, helpers)
+            env.vars[ps[0][0]] = ('grid',)
+            blk = parse_body(it['body'])
             out.append(f'def {name}.{fname} (self : {name}) (grid : Pt → Int) : {name} × Bool :=')
-            out += translate_body(f'{d}/adjustable.rs {fname}', body, env)
+            out += Body(where, {ps[0][0]}).seq(blk[1], blk[2], env, None)
             out.append('')
     out += ['end Gen.Adjustable', '']
     return '\n'.join(out)
